@@ -11,7 +11,8 @@ from collections import Counter
 PKG = "network/dag"
 HARNESS = ["network/dag/zz_verif_c14_test.go"]
 HARNESSES = [(PKG, HARNESS, "c14"), ("network/transport/v2", ["network/transport/v2/zz_verif_c14_test.go"], "c14h"),
-             ("network", ["network/zz_verif_c14_test.go"], "c14s")]
+             ("network", ["network/zz_verif_c14_test.go"], "c14s"),
+             ("vcr", ["vcr/zz_verif_c14_test.go"], "c14v")]
 ROOT = os.path.dirname(os.path.dirname(os.path.abspath(__file__)))
 
 REQUIRED = ["no_loss", "admitted_by_commit", "only_admitted_delivered", "not_admitted_unchanged", "no_call_after_done",
@@ -20,7 +21,7 @@ REQUIRED = ["no_loss", "admitted_by_commit", "only_admitted_delivered", "not_adm
             "restart_redelivers", "delivered_at_least_once", "eventual_delivery", "eventual_delivery_from_start", "failed_visible",
             "completed_or_visible", "parked_witness",
             "fact_retry_constants", "fact_retry_arithmetic", "fact_retry_backoff", "fact_notifyNow_retries",
-            "fact_run_replays_every_job", "fact_start_runs_every_notifier", "fact_save_only_new_events", "fact_failed_events_threshold", "fact_save_in_write_tx_notify_after_commit",
+            "fact_run_replays_every_job", "fact_start_runs_every_notifier", "fact_receiver_error_classification", "fact_registration_receivers", "fact_cleanup_only_named_subscriber_and_prefix", "fact_subscribers_persist_on_the_dag_store", "fact_save_only_new_events", "fact_failed_events_threshold", "fact_save_in_write_tx_notify_after_commit",
             "fact_writePayload_skips_stored_payload", "fact_write_back_skips_removed_event", "fact_payload_handler_sequence", "fact_registrations"]
 
 
@@ -277,6 +278,7 @@ def run(ctx):
     if not ctx.replay:
         handler_oracle(ctx)
         start_oracle(ctx)
+        classification_oracle(ctx)
 
     # ---- real sleeping of the retry loop: never shorter than retryDelay * 2^(1+k) (capped), i.e. growing
     n_timing = 0
@@ -380,6 +382,17 @@ def handler_oracle(ctx):
                       f"real handleTransactionPayload: vcr_vcs called again after completion at {again} (calls {rows[again[0]]['calls']})",
                       "handler-second-payload.jsonl", open(wit).read() if os.path.exists(wit) else "see harness/inpkg/network/transport/v2/zz_verif_c14_test.go")
     ctx.cov["handler_level_steps"] = len(rows)
+    # the real "private" receiver (handlePrivateTxRetry, registered by the real Configure): retry / fatal / done
+    want = {"db": "retried", "err": "fatal", "nokeys": "done", "present": "done"}
+    got = dict(re.findall(r"^private-(\w+) class=(\w+)", "\n".join(ctx.read_lines(os.path.join(out, "handler.out"))), re.M))
+    dlq = dict(re.findall(r"^private-(\w+) class=\w+ dlq=(-?\d+)", "\n".join(ctx.read_lines(os.path.join(out, "handler.out"))), re.M))
+    wrong = {k: got.get(k) for k in want if got.get(k) != want[k]}
+    if dlq.get("err") != "1":
+        wrong["err:not-shown-by-diagnostics(payload_fetch_dlq)"] = dlq.get("err")
+    ctx.oblige("oracle:handler:private-receiver-classification(db-error=retried,other=fatal+visible,not-for-us/present=done)", not wrong, str(wrong))
+    if wrong:
+        ctx.violation("C14:receiver-misclassifies:private", f"real handlePrivateTxRetry: expected {want}, observed {got} (dlq {dlq})",
+                      "receiver-classification-private.txt", f"scenario of harness/inpkg/network/transport/v2/zz_verif_c14_test.go: expected {want}, observed {got}, dlq {dlq}\n")
 
 
 def start_oracle(ctx):
@@ -449,6 +462,43 @@ def start_oracle(ctx):
                       f"real Network.CleanupSubscriberEvents({t!r}, {p!r}) (round {r}) removed {w}: undelivered events vanished instead of staying visible as failed",
                       "cleanup-removes-too-much.txt", "scenario of harness/inpkg/network/zz_verif_c14_test.go (VERIF_SEED=%s), failing round:\n%s\n" % (ctx.seed, line))
     ctx.cov["start_leg"] = {"rounds": rows, "unfinished_jobs": n_jobs, "job_states": dict(kinds), "cleanup_calls": n_cleanup}
+
+
+def classification_oracle(ctx):
+    """the REAL vcr ambassador.handleError inside a real persistent notifier: transient errors are retried, the
+    context-not-allowed error is done, everything else is fatal = one call, marked failed and listed"""
+    pkg, files, name = HARNESSES[3]
+    vb = ctx.go_test_binary(pkg, files, name)
+    if vb is None:
+        ctx.oblige("classification-harness-builds", False, ctx.harness_error[-1200:])
+        return
+    d = os.path.join(ctx.scratch, "outv")
+    rc, log, out = ctx.run_harness(vb, "TestVerifC14Classification", {}, outdir=d, timeout=300)
+    if rc != 0:
+        ctx.oblige("classification-harness-runs", False, "\n".join(l for l in log.split("\n") if "level=audit" not in l)[-1200:])
+        return
+    want = {"context.Canceled": "retried", "wrapped-context.Canceled": "retried", "context.DeadlineExceeded": "retried",
+            "context-not-allowed": "done", "remote-context-load-failed": "retried", "invalid-credential": "fatal", "jsonld-other-code": "fatal"}
+    got = {}
+    for l in ctx.read_lines(os.path.join(out, "classification.out")):
+        m = re.match(r"(\S+) done=(\w+) err=(\w+) fatal=(\w+) calledAgain=(\w+) onShelf=(\w+) listedFailed=(\w+) failedRetries=(-?\d+)$", l)
+        if not m:
+            continue
+        n, done, err, fatal, again, shelf, listed, fr = m.groups()
+        if done == "true" and shelf == "false" and again == "false":
+            got[n] = "done"
+        elif fatal == "true" and again == "false" and shelf == "true" and listed == "true" and int(fr) > 20:
+            got[n] = "fatal"
+        elif err == "true" and fatal == "false" and again == "true" and shelf == "true":
+            got[n] = "retried"
+        else:
+            got[n] = "inconsistent(" + l + ")"
+    wrong = {k: got.get(k) for k in want if got.get(k) != want[k]}
+    ctx.oblige("oracle:vcr:handleError-classification(transient=retried,context-not-allowed=done,other=fatal+listed)", not wrong, str(wrong))
+    if wrong:
+        ctx.violation("C14:receiver-misclassifies:vcr", f"real vcr ambassador.handleError in a real notifier: expected {[(k, want[k]) for k in wrong]}, observed {wrong}",
+                      "receiver-classification-vcr.txt", f"scenario of harness/inpkg/vcr/zz_verif_c14_test.go: expected {want}\nobserved {got}\n")
+    ctx.cov["classification_cases"] = len(got)
 
 
 def shrink(ctx, binary, h, upto, sig, threshold):
